@@ -2,9 +2,9 @@
 //
 //	uf convert <hex>   ConvertUnknownFields                       => ok <tree> | err <class> | PANIC <class>
 //	uf rt <hex>        Convert, UnknownFieldsLength, Write        => ok <hex written> <length>
-//	uf write <tree>    WriteUnknownFields                         => ok <hex>
-//	uf len <tree>      UnknownFieldsLength                        => ok <n>
-//	uf wrt <tree>      Length, Write, Convert                     => ok <tree>
+//	uf write <tree>    WriteUnknownFields                         => ok <hex> <length|->
+//	uf len <tree>      UnknownFieldsLength                        => ok <n> <bytes written|->
+//	uf wrt <tree>      Length, Write, Convert                     => ok <tree> <length> <bytes written>
 package main
 
 import (
@@ -70,12 +70,22 @@ func runConvert(b []byte) string {
 	})
 }
 
+// uf rt: a panic inside ConvertUnknownFields is "PANIC <class>" (C03); a panic of Length / Write on the tree it
+// returned (Write gets a buffer of exactly the advertised length) is "WPANIC <class>" (C13).
 func runRt(b []byte) string {
-	return guard(func() string {
-		fs, err := uf.ConvertUnknownFields(b)
+	var fs []uf.UnknownField
+	res := guard(func() string {
+		var err error
+		fs, err = uf.ConvertUnknownFields(b)
 		if err != nil {
 			return "err " + errClass(err)
 		}
+		return ""
+	})
+	if res != "" {
+		return res
+	}
+	res = guard(func() string {
 		n, err := uf.UnknownFieldsLength(fs)
 		if err != nil {
 			return "err " + errClass(err)
@@ -87,52 +97,76 @@ func runRt(b []byte) string {
 		}
 		return fmt.Sprintf("ok %s %d", lib.Hex(buf[:off]), n)
 	})
+	if strings.HasPrefix(res, "PANIC ") {
+		return "W" + res
+	}
+	return res
 }
 
+// tryLen / tryWrite: the other half of the (computed length, bytes written) pair every tree line carries;
+// "-" when that half fails (error or panic). Write always gets a generously sized buffer here, so a wrong
+// UnknownFieldsLength shows as a length/written mismatch instead of an index panic (the exact-length buffer
+// is exercised by `uf rt`).
+func tryLen(fs []uf.UnknownField) (s string, n int) {
+	s, n = "-", -1
+	func() {
+		defer func() { recover() }()
+		l, err := uf.UnknownFieldsLength(fs)
+		if err == nil {
+			s, n = fmt.Sprint(l), l
+		}
+	}()
+	return
+}
+
+func bigBuf(fs []uf.UnknownField, n int) []byte {
+	return make([]byte, max(n, 0)+lib.UfSizeBound(fs))
+}
+
+func tryWrite(fs []uf.UnknownField) (s string) {
+	s = "-"
+	func() {
+		defer func() { recover() }()
+		off, err := uf.WriteUnknownFields(bigBuf(fs, 0), fs)
+		if err == nil {
+			s = fmt.Sprint(off)
+		}
+	}()
+	return
+}
+
+// uf len <tree> => ok <length> <bytes written | ->
 func runLen(fs []uf.UnknownField) string {
 	return guard(func() string {
 		n, err := uf.UnknownFieldsLength(fs)
 		if err != nil {
 			return "err " + errClass(err)
 		}
-		return fmt.Sprintf("ok %d", n)
+		return fmt.Sprintf("ok %d %s", n, tryWrite(fs))
 	})
 }
 
-// writeBuf: exactly the advertised length when there is one, otherwise a generous bound
-func writeBuf(fs []uf.UnknownField) []byte {
-	n, ok := -1, false
-	func() {
-		defer func() { recover() }()
-		l, err := uf.UnknownFieldsLength(fs)
-		if err == nil {
-			n, ok = l, true
-		}
-	}()
-	if ok {
-		return make([]byte, n)
-	}
-	return make([]byte, lib.UfSizeBound(fs))
-}
-
+// uf write <tree> => ok <hex written> <length | ->
 func runWrite(fs []uf.UnknownField) string {
 	return guard(func() string {
-		buf := writeBuf(fs)
+		ls, n := tryLen(fs)
+		buf := bigBuf(fs, n)
 		off, err := uf.WriteUnknownFields(buf, fs)
 		if err != nil {
 			return "err " + errClass(err)
 		}
-		return "ok " + lib.Hex(buf[:off])
+		return "ok " + lib.Hex(buf[:off]) + " " + ls
 	})
 }
 
+// uf wrt <tree> => ok <tree converted back> <length> <bytes written>
 func runWrt(fs []uf.UnknownField) string {
 	return guard(func() string {
 		n, err := uf.UnknownFieldsLength(fs)
 		if err != nil {
 			return "err " + errClass(err)
 		}
-		buf := make([]byte, n)
+		buf := bigBuf(fs, n)
 		off, err := uf.WriteUnknownFields(buf, fs)
 		if err != nil {
 			return "err " + errClass(err)
@@ -144,7 +178,7 @@ func runWrt(fs []uf.UnknownField) string {
 		if err != nil {
 			return "err " + errClass(err)
 		}
-		return "ok " + lib.UfShow(back)
+		return fmt.Sprintf("ok %s %d %d", lib.UfShow(back), n, off)
 	})
 }
 
@@ -538,6 +572,28 @@ func genCases(o *lib.Opts) {
 			cp, _ := lib.UfParse(lib.UfShow(fs)) // deep copy
 			what := tg.breakTree(cp)
 			emitTree("broken:"+what, lib.UfShow(cp))
+		}
+	}
+	// 7b. well-typed maps of every key/value type combination with 2 and 3 pairs (keys and values of different
+	//     encoded sizes), bare and inside a struct / list: length vs bytes written
+	for _, kt := range lib.AllTypes {
+		for _, vt := range lib.AllTypes {
+			for _, ar := range []int{2, 3} {
+				m := uf.UnknownField{ID: int16(anyID(r)), Type: tt(lib.MAP), KeyType: tt(kt), ValType: tt(vt)}
+				vs := make([]uf.UnknownField, 0, 2*ar)
+				for i := 0; i < ar; i++ {
+					vs = append(vs, tg.value(kt, int16(i), 2), tg.value(vt, int16(i), 2))
+				}
+				m.Value = vs
+				emitTree("kv-combo", lib.UfShow([]uf.UnknownField{m}))
+				if ar == 2 {
+					inner := m
+					inner.ID = 0
+					l := uf.UnknownField{ID: 7, Type: tt(lib.LIST), ValType: tt(lib.MAP), Value: []uf.UnknownField{inner}}
+					st := uf.UnknownField{ID: 8, Type: tt(lib.STRUCT), Value: []uf.UnknownField{m, l}}
+					emitTree("kv-combo-nested", lib.UfShow([]uf.UnknownField{st, l}))
+				}
+			}
 		}
 	}
 	// 8. bounded-exhaustive short inputs over a grammar alphabet
